@@ -1,4 +1,5 @@
 import BSModel.Proofs.TokenizerTags
+import BSModel.Proofs.TokenizerRound
 /-! # TK — CPython's `html.parser` tokenizer as bs4 drives it (`feed(text); close()`, `convert_charrefs=False`)
 
 Theorems about the executable model `BS.Tokenizer.run` (`Model/Tokenizer.lean`, a code mirror of `html/parser.py` and
@@ -173,6 +174,46 @@ theorem start_positions_are_offsets (P : Params) (text : PStr) :
 
 /-- `str.lower` on ASCII, `html.unescape` = identity: enough for the examples -/
 def P0 : Params := { unescape := id, lower := asciiLower }
+
+/-! ### round trips on a small well-formed grammar (names over `[a-z][a-z0-9]*`) -/
+
+/-- **end tags round-trip.** `parse_endtag` on `</name>` (followed by anything) calls `handle_endtag(name)`, returns
+    the index just after the `>`, and leaves CDATA mode off — outside CDATA mode, and inside it when `name` is the
+    element that switched it on. (`P.lower name = name`: `str.lower` leaves `[a-z0-9]` alone.) -/
+theorem endtag_roundtrip (P : Params) (cd : Option PStr) (name rest : PStr) (hn : NameOK name)
+    (hl : P.lower name = name) (hcd : cd = none ∨ cd = some name) :
+    parseEndTag P cd (writeEndTag name ++ rest) = .ok (.et name) (writeEndTag name).length none :=
+  parseEndTag_write P cd name rest hn hl hcd
+
+example : NameOK (BS.ofS "h1") := ⟨104, [49], by decide, by decide, by decide⟩
+example : parseEndTag P0 none (BS.ofS "</h1>x") = .ok (.et (BS.ofS "h1")) 5 none := by decide
+
+/-- **comments round-trip** (partial: bodies without `-`; the full statement allows any body without `--` that does not
+    end in `-` — with `--` inside, `commentclose = --\s*>` can match early, e.g. `<!--a-- >b-->`). `parse_comment` on
+    `<!--body-->` calls `handle_comment(body)` and returns the index just after the `>`. -/
+theorem comment_roundtrip_partial (cd : Option PStr) (body rest : PStr) (hb : ∀ x ∈ body, x ≠ 45) :
+    parseComment cd (writeComment body ++ rest) = .ok (.cm body) (writeComment body).length cd :=
+  parseComment_write_partial cd body rest hb
+
+example : parseComment none (BS.ofS "<!-- a>b -->x") = .ok (.cm (BS.ofS " a>b ")) 12 none := by decide
+
+/-- **start tags round-trip** (partial: no attributes). `parse_starttag` on `<name>` calls `handle_starttag(name, [])`,
+    returns the index just after the `>`, and switches CDATA mode on exactly for `script`/`style`. The statement with
+    attributes `<name k="v" …>` is written out at the end of `Proofs/TokenizerRound.lean` (future work); the
+    correspondence's "written" stream covers that grammar against the real parser. -/
+theorem starttag_roundtrip_partial (P : Params) (cd : Option PStr) (name rest : PStr) (hn : NameOK name)
+    (hl : P.lower name = name) :
+    parseStartTag P cd (writeStartTag0 name ++ rest) =
+      .ok (.st name []) (writeStartTag0 name).length (if cdataContentElements.contains name then some name else cd) :=
+  parseStartTag_write_partial P cd name rest hn hl
+
+example : parseStartTag P0 none (BS.ofS "<h1>x") = .ok (.st (BS.ofS "h1") []) 4 none := by decide
+example : parseStartTag P0 none (BS.ofS "<style>x") = .ok (.st (BS.ofS "style") []) 7 (some (BS.ofS "style")) := by decide
+/-- with attributes (not covered by the theorem): checked on a concrete tag -/
+example : parseStartTag P0 none (BS.ofS "<a k=\"v\" j='w'>x") =
+    .ok (.st (BS.ofS "a") [(BS.ofS "k", some (BS.ofS "v")), (BS.ofS "j", some (BS.ofS "w"))]) 15 none := by decide
+
+
 
 /-- `"ab\n <p id=x>c</p>"`: data, start tag at line 2 column 1 (offset 4), data, end tag -/
 example : (run P0 (BS.ofS "ab\n <p id=x>c</p>")).evs.map (fun e => (e.tok, e.pos)) =
